@@ -153,3 +153,111 @@ Proof. exact @exit_next_ok_whole. Qed.
 
 Print Assumptions C06_constraint_initialisation_regenerated.
 Print Assumptions C06_single_successor_test_agrees.
+
+(* ------------------------------------------------------------------------------------------------------------
+   Extension (joint pass over all keys): theorems from Lemmas/JointGenLemmas.v and Lemmas/JointTotal.v.  tealer iterates
+   ONE worklist for all keys of an analysis; the per-key model is related to that joint run here.  *)
+From Coq Require Import String List NArith ZArith Bool Arith.
+From Tealer Require Import JointGenLemmas JointTotal.
+
+(* for every key of the list the joint pass of the regenerated solver returns, as a set, what the per-key model solver returns *)
+Theorem C06_joint_pass_solve_peq :
+      forall (T : Type) (t_eqb : T -> T -> bool) (univ null : string -> T)
+         (union inter : string -> T -> T -> T)
+         (single : string -> Syntax.instr -> nat -> list StackAst.sval -> T * T) 
+         (f : Analysis.func) (k : string) (leq : T -> T -> Prop) (keys : list string) 
+         (fuel fuel' : nat) (d d' : SolverGen.gdict T) (lo : list (nat * T)),
+       key_order T t_eqb (null k) (union k) (inter k) leq ->
+       joint_graph_ok f ->
+       GraphGenLemmas.main_name_fresh f ->
+       NoDup (SolverLemmas.ids f) ->
+       (forall l : list nat, In l (Analysis.postorders f) -> incl l (SolverLemmas.ids f)) ->
+       NoDup keys ->
+       In k keys ->
+       JointGen.joint_pass_gen T t_eqb univ null union inter single f fuel keys (Analysis.postorders f) d =
+       Some (Some d') ->
+       Domains.solve T t_eqb (univ k) (null k) (union k) (inter k) (single k) f fuel'
+         (SolverGen.ddict_get T d k) = Analysis.Done lo ->
+       SolverLemmas.peq T t_eqb (SolverGen.ddict_get T d' k) lo.
+Proof. exact @joint_pass_solve_peq. Qed.
+
+(* Leibniz equality when the domain equality test is exact *)
+Theorem C06_joint_pass_solve_eq :
+      forall (T : Type) (t_eqb : T -> T -> bool) (univ null : string -> T)
+         (union inter : string -> T -> T -> T)
+         (single : string -> Syntax.instr -> nat -> list StackAst.sval -> T * T) 
+         (f : Analysis.func) (k : string) (leq : T -> T -> Prop) (keys : list string) 
+         (fuel fuel' : nat) (d d' : SolverGen.gdict T) (lo : list (nat * T)),
+       (forall a b : T, t_eqb a b = true -> a = b) ->
+       key_order T t_eqb (null k) (union k) (inter k) leq ->
+       joint_graph_ok f ->
+       GraphGenLemmas.main_name_fresh f ->
+       NoDup (SolverLemmas.ids f) ->
+       (forall l : list nat, In l (Analysis.postorders f) -> incl l (SolverLemmas.ids f)) ->
+       NoDup keys ->
+       In k keys ->
+       JointGen.joint_pass_gen T t_eqb univ null union inter single f fuel keys (Analysis.postorders f) d =
+       Some (Some d') ->
+       Domains.solve T t_eqb (univ k) (null k) (union k) (inter k) (single k) f fuel'
+         (SolverGen.ddict_get T d k) = Analysis.Done lo -> SolverGen.ddict_get T d' k = lo.
+Proof. exact @joint_pass_solve_eq. Qed.
+
+(* keys outside the list are untouched *)
+Theorem C06_joint_pass_other_keys :
+      forall (T : Type) (t_eqb : T -> T -> bool) (univ null : string -> T)
+         (union inter : string -> T -> T -> T)
+         (single : string -> Syntax.instr -> nat -> list StackAst.sval -> T * T) 
+         (f : Analysis.func) (keys : list string) (fuel : nat) (d d' : SolverGen.gdict T) 
+         (k : string),
+       GraphGenLemmas.main_name_fresh f ->
+       NoDup (SolverLemmas.ids f) ->
+       (forall l : list nat, In l (Analysis.postorders f) -> incl l (SolverLemmas.ids f)) ->
+       NoDup keys ->
+       ~ In k keys ->
+       JointGen.joint_pass_gen T t_eqb univ null union inter single f fuel keys (Analysis.postorders f) d =
+       Some (Some d') -> SolverGen.ddict_get T d' k = SolverGen.ddict_get T d k.
+Proof. exact @joint_pass_other_keys. Qed.
+
+(* GroupSize and GroupIndex analysed jointly by the regenerated run_analysis against the model run_int *)
+Theorem C06_group_indices_joint_peq :
+      forall (f : Analysis.func) (indices : list (nat * list Z)) (fuel fuel' afuel : nat)
+         (dfin : SolverGen.gdict (list Z)) (size : bool) (res : list (nat * list Z)),
+       RunGenLemmas.run_graph_ok f ->
+       joint_graph_ok f ->
+       (forall b : Cfg.block,
+        In b (Analysis.fn_blocks f) -> NoDup (Cfg.b_ins b) /\ Datatypes.length (Cfg.b_ins b) < afuel) ->
+       RunGen.run_analysis_gen (list Z) Domains.zset_eqb gi_univ (fun _ : string => nil)
+         (fun _ : string => Domains.zunion) (fun _ : string => Domains.zinter)
+         (gi_single (Analysis.fn_intcs f)) f ("GroupSize" :: "GroupIndex" :: nil) nil indices fuel
+         (S (Datatypes.length (Analysis.fn_blocks f))) afuel = Some (Some dfin) ->
+       Domains.run_int f fuel' size = Analysis.Done res ->
+       SolverLemmas.peq (list Z) Domains.zset_eqb
+         (SolverGen.ddict_get (list Z) dfin (if size then "GroupSize" else "GroupIndex")) res.
+Proof. exact @group_indices_joint_peq. Qed.
+
+(* same members block by block: the membership theorems of this file transfer to the joint run *)
+Theorem C06_group_indices_joint_same_members :
+      forall (f : Analysis.func) (indices : list (nat * list Z)) (fuel fuel' afuel : nat)
+         (dfin : SolverGen.gdict (list Z)) (size : bool) (res : list (nat * list Z)) 
+         (b : nat) (v : list Z),
+       RunGenLemmas.run_graph_ok f ->
+       joint_graph_ok f ->
+       (forall b0 : Cfg.block,
+        In b0 (Analysis.fn_blocks f) -> NoDup (Cfg.b_ins b0) /\ Datatypes.length (Cfg.b_ins b0) < afuel) ->
+       RunGen.run_analysis_gen (list Z) Domains.zset_eqb gi_univ (fun _ : string => nil)
+         (fun _ : string => Domains.zunion) (fun _ : string => Domains.zinter)
+         (gi_single (Analysis.fn_intcs f)) f ("GroupSize" :: "GroupIndex" :: nil) nil indices fuel
+         (S (Datatypes.length (Analysis.fn_blocks f))) afuel = Some (Some dfin) ->
+       Domains.run_int f fuel' size = Analysis.Done res ->
+       Analysis.lookup (list Z) res b = Some v ->
+       exists v' : list Z,
+         Analysis.lookup (list Z)
+           (SolverGen.ddict_get (list Z) dfin (if size then "GroupSize" else "GroupIndex")) b = 
+         Some v' /\ (forall x : Z, In x v' <-> In x v).
+Proof. exact @group_indices_joint_same_members. Qed.
+
+Print Assumptions C06_joint_pass_solve_peq.
+Print Assumptions C06_joint_pass_solve_eq.
+Print Assumptions C06_joint_pass_other_keys.
+Print Assumptions C06_group_indices_joint_peq.
+Print Assumptions C06_group_indices_joint_same_members.
